@@ -344,6 +344,20 @@ macro_rules! run_quat {
                 out.push(("length_squared".into(), "method", vec![e["n2"].as_i64().unwrap() as f64], vec![p.length_squared() as f64]));
                 let v4: Vec<f64> = Into::<[$S; 4]>::into(p).iter().map(|c| *c as f64).collect();
                 out.push(("to_array".into(), "Into<[T;4]>", pi.iter().map(|x| *x as f64).collect(), v4));
+                // == and != are the component-wise IEEE comparison of the 4-vector: -0 equals +0 (a conjugate or a negation leaves
+                // negative zeros behind), a NaN component equals nothing
+                let b2f = |b: bool| -> Vec<f64> { vec![if b { 1.0 } else { 0.0 }] };
+                let ieee_eq = |a: [$S; 4], b: [$S; 4]| -> bool { (0..4).all(|i| a[i] == b[i]) };
+                let cj = p.conjugate();
+                let cz = $Q::from_xyzw(0.0 - p.x, 0.0 - p.y, 0.0 - p.z, p.w);          // 0 - 0 = +0 where the conjugate has -0
+                out.push(("eq".into(), "conjugate == (0 - x, 0 - y, 0 - z, w)", b2f(true), b2f(cj == cz)));
+                out.push(("eq".into(), "!(conjugate != ...)", b2f(false), b2f(cj != cz)));
+                out.push(("eq".into(), "-(-p) == p", b2f(true), b2f(-(-p) == p)));
+                out.push(("eq".into(), "p == q", b2f(ieee_eq(p.to_array(), q.to_array())), b2f(p == q)));
+                out.push(("eq".into(), "p != q", b2f(!ieee_eq(p.to_array(), q.to_array())), b2f(p != q)));
+                let nq = $Q::from_xyzw(p.x, <$S>::NAN, p.z, p.w);
+                out.push(("eq".into(), "a quaternion with a NaN component == itself", b2f(false), b2f(nq == nq)));
+                out.push(("eq".into(), "a quaternion with a NaN component != itself", b2f(true), b2f(nq != nq)));
             } else {
                 // p, q are doubled Hurwitz units
                 let v = $V3::new(vi[0] as $S, vi[1] as $S, vi[2] as $S);
